@@ -14,6 +14,7 @@ import (
 	"image/color"
 	"math"
 	"math/bits"
+	"os"
 	"runtime/debug"
 	"sort"
 
@@ -1011,6 +1012,17 @@ func init() {
 						Rule: "256x256 images: Gray, YCbCr and NRGBA with transparent pixels, at the origin and as a sub-image, whole content family"},
 					mc.Space{Name: "sizes-256", H: c19Sizes(1, 254, 258, 64), NoLevels: true, Isolate: true, SplitDepth: 1,
 						Rule: "every (w,h) in [254,258]^2, 256x[0,64], [0,64]x256"})
+			}
+			pb := 2
+			if tier == "thorough" {
+				pb = 3
+			}
+			sp = append(sp, mc.Space{Name: "concurrent-hash-pairs", H: c05HarnessOf(c19HashPairs), Bound: pb, Isolate: true, SplitDepth: 1,
+				Rule: fmt.Sprintf("each of the four hash functions twice at the same time on different images under the cooperative scheduler of C05 (every schedule and pool answer with <= %d deviations): each hash must equal the hash of its own image computed alone", pb)})
+			if raceBin := os.Getenv("VCHECK_RACE_BIN"); raceBin != "" {
+				sp = append(sp, mc.Space{Name: "concurrent-hash-pairs/race-detector", H: c05HarnessOf(c19HashPairs), Bound: pb - 1, Isolate: true, SplitDepth: 1,
+					Binary: raceBin, Env: []string{"GORACE=halt_on_error=1 exitcode=66"},
+					Rule: "the same in the -race build: work areas shared between two calls of one function show as a data race whatever the schedule"})
 			}
 			return sp
 		},
